@@ -264,7 +264,10 @@ def gen_filter(rng, env, name=None):
             f["readers"] = rng.choice([2, 2, 3])
             f["schedule"] = [rng.randrange(f["readers"]) for _ in range(rng.randint(1, 2 * n + 2))]
         if reads == "failed":
-            f.update(fail_at=rng.randint(0, max(n - 1, 0)), source=rng.choice(["generator", "iterator"]), after=rng.choice([1, 2]))
+            # `exc`: what cuts the read -- an I/O error of the source, or the user's Ctrl-C / a sys.exit() arriving while the source is
+            # asked for an item (BaseExceptions; a notebook user reads the same environment again afterwards)
+            f.update(fail_at=rng.randint(0, max(n - 1, 0)), source=rng.choice(["generator", "iterator"]), after=rng.choice([1, 2]),
+                     exc=rng.choice(["io", "io", "keyboard", "sysexit"]))
     elif name == "Chunk":
         f.update(cache=rng.random() < .5)
     elif name == "Params":
@@ -725,21 +728,29 @@ class _Chain:
 class _SourceFailed(IOError):
     """raised by the harness's own source (a transient read error of whatever feeds the filter)"""
 
+class _SourceCutKI(KeyboardInterrupt):
+    """Ctrl-C arriving while the source is asked for an item"""
+class _SourceCutExit(SystemExit):
+    """sys.exit() (e.g. a signal handler's) arriving while the source is asked for an item"""
+_CUTS = {"io": _SourceFailed, "keyboard": _SourceCutKI, "sysexit": _SourceCutExit}
+
 class _FailingSource:
-    """an iterable over `items` whose iteration raises _SourceFailed when item number `at` is asked for (once)"""
-    def __init__(self, items, at, kind): self.items, self.at, self.kind, self.failed = items, at, kind, False
+    """an iterable over `items` whose iteration raises _SourceFailed (or the BaseException asked for) when item number `at` is asked for (once)"""
+    def __init__(self, items, at, kind, exc="io"):
+        self.items, self.at, self.kind, self.failed = items, at, kind, False
+        self._exc = _CUTS[exc]
     def __iter__(self):
         if self.kind == "generator": return self._gen()
         return self
     def _gen(self):
         for i, x in enumerate(self.items):
-            if i == self.at and not self.failed: self.failed = True; raise _SourceFailed("source failed")
+            if i == self.at and not self.failed: self.failed = True; raise self._exc("source failed")
             yield x
-        if self.at >= len(self.items) and not self.failed: self.failed = True; raise _SourceFailed("source failed")
+        if self.at >= len(self.items) and not self.failed: self.failed = True; raise self._exc("source failed")
     _i = 0
     def __next__(self):
         i = self._i; self._i += 1
-        if i == self.at and not self.failed: self.failed = True; raise _SourceFailed("source failed")
+        if i == self.at and not self.failed: self.failed = True; raise self._exc("source failed")
         if i >= len(self.items): raise StopIteration
         return self.items[i]
 
@@ -765,8 +776,8 @@ def _consume(f, runner, base, form):
             # the read during which the source fails is not judged (its input is not a finite sequence); the reads after
             # it are given the intact sequence
             try:
-                for _ in runner(_FailingSource(base, f["fail_at"], f["source"]), form): pass
-            except _SourceFailed: pass
+                for _ in runner(_FailingSource(base, f["fail_at"], f["source"], f.get("exc", "io")), form): pass
+            except (_SourceFailed, _SourceCutKI, _SourceCutExit): pass
             return [list(runner(base, form)) for _ in range(f["after"])]
         it = iter(runner(base, form))
         for _ in range(f["k"]):
@@ -812,7 +823,8 @@ def check_case(spec, ctx=None):
     def fail(via, mode, what, extra=""):
         p = pclass(f, env, reason_now[0]) if name in ("Where", "Sort") else pc
         # what a Cache makes of several readers / of a source that failed does not hinge on the size of its slices
-        if name == "Cache" and f["reads"] in ("interleaved", "failed"): p = f"reads={f['reads']}"
+        if name == "Cache" and f["reads"] in ("interleaved", "failed"):
+            p = f"reads={f['reads']}" + (f"[cut-by={f['exc']}]" if f["reads"] == "failed" and f.get("exc", "io") != "io" else "")
         sig = f"{name}" + (f"/{p}" if p else "") + (f"/{extra}" if extra else "") + f"/mode={mode}"
         fails.setdefault(sig, {}).setdefault(via, what)
 
